@@ -114,6 +114,9 @@ def compare_objects(ref, sub, rtol, atol, what="", check_meta=True, meta_ignore=
         sm = {k: v for k, v in sub.metadata.items() if k not in meta_ignore}
         if not values_equal(rm, sm):
             out.append(("metadata", f"{what}metadata {str(sm)[:200]} != {str(rm)[:200]}"))
+    if ra.dtype != sa.dtype and np.dtype("float32") in (ra.real.dtype, sa.real.dtype):
+        # one side came out in single precision: judge values at single-precision accuracy
+        rtol, atol = max(rtol, 2e-4), max(atol, 1e-7)
     ok, d, s = close(sa, ra, rtol, atol)
     if not ok:
         out.append(("values", f"{what}max|diff|={d:.3g} scale={s:.3g} rtol={rtol:g}"))
